@@ -104,3 +104,40 @@ package hpack
 //@   ensures [C18:entry-larger-than-table-empties-it] entSize(f) > dt.maxSize ==> len(dt.table.ents) == 0
 //@   ensures [C18:entry-that-fits-is-kept] entSize(f) <= dt.maxSize ==> len(dt.table.ents) >= 1 && dt.table.ents[len(dt.table.ents)-1] == f
 //@   use szNonNeg(dt.table.ents, len(dt.table.ents) - 1)
+
+//@ -- decoder ---------------------------------------------------------------------------------------------------
+//@ globalinv [C18:sentinel-errors-distinct] errNeedMore != nil && ErrStringLength != nil && errNeedMore != ErrStringLength && !errNeedMore.(DecodingError) && !ErrStringLength.(DecodingError)
+//@ -- ghost: the fields handed to the emit callback, in order
+//@ ghostfield Decoder.emitted seq[HeaderField]
+//@ func field Decoder.emit :: f
+//@   trusted
+//@   assigns owner.emitted
+//@   ensures owner.emitted == old(owner.emitted) ++ seq[HeaderField]{f}
+
+//@ pure func decInv(d *Decoder) bool = dtInv(d.dynTab) && d.dynTab.table != staticTable && idRoom(d.dynTab.table)
+
+//@ func (*Decoder).maxTableIndex :: d -> n
+//@   props C18
+//@   requires d != nil && idRoom(d.dynTab.table)
+//@   assigns nothing
+//@   ensures n == len(d.dynTab.table.ents) + 61
+
+//@ func (*Decoder).at :: d, i -> hf, ok
+//@   props C18,C10
+//@   requires d != nil && idRoom(d.dynTab.table)
+//@   assigns nothing
+//@   ensures [C18:index-zero-invalid] i == 0 ==> !ok
+//@   ensures [C18:static-index] 1 <= i && i <= 61 ==> ok && hf == staticTable.ents[i-1]
+//@   ensures [C18:dynamic-index-newest-first] 61 < i && i <= 61 + len(d.dynTab.table.ents) ==> ok && hf == d.dynTab.table.ents[len(d.dynTab.table.ents) - (i - 61)]
+//@   ensures [C18:index-beyond-tables-invalid] i > 61 + len(d.dynTab.table.ents) ==> !ok
+
+//@ func readVarInt :: n, p -> i, remain, err
+//@   props C18,C10
+//@   requires [C18:prefix-size-valid] 1 <= n && n <= 8
+//@   assigns nothing
+//@   ensures [C18:integer-error-leaves-input] err != nil ==> remain == p && (err == errNeedMore || err.(DecodingError))
+//@   ensures [C18:integer-success-consumes-a-prefix] err == nil ==> len(remain) < len(p) && remain == p[len(p) - len(remain):]
+//@   ensures [C18:integer-ends-at-first-byte-without-continuation-bit] err == nil && len(p) - len(remain) >= 2 ==> p[len(p) - len(remain) - 1] < 128 && (forall j int :: 1 <= j && j < len(p) - len(remain) - 1 ==> p[j] >= 128)
+//@   ensures [C18:need-more-only-when-truncated] err == errNeedMore ==> len(p) <= 9 && (forall j int :: 1 <= j && j < len(p) ==> p[j] >= 128)
+//@   ensures [C18:overlong-integer-rejected] err != nil && err != errNeedMore ==> len(p) >= 10 && (forall j int :: 1 <= j && j < 10 ==> p[j] >= 128)
+//@   loop 1 invariant origP == old(p) && len(p#1) < len(origP) && p#1 == origP[len(origP) - len(p#1):] && m == 7 * (len(origP) - len(p#1) - 1) && m < 63 && (forall j int :: 1 <= j && j < len(origP) - len(p#1) ==> origP[j] >= 128)
